@@ -662,3 +662,13 @@ func e2eVmPeakMB() int {
 	}
 	return 0
 }
+
+func e2eDropEnv(env []string, key string) []string {
+	var res []string
+	for _, e := range env {
+		if !strings.HasPrefix(e, key+"=") {
+			res = append(res, e)
+		}
+	}
+	return res
+}
